@@ -116,6 +116,10 @@ def lint_trace(path):
     with open(path, "rb") as f:
         for ln, line in enumerate(f, 1):
             n += 1
+            if b"null" in line:
+                for m in re.finditer(rb'(?<![\w"])null(?![\w"])', line):
+                    if line[:m.start()].count(b'"') % 2 == 0:
+                        raise MachineryError(f"lint: {path}:{ln}: JSON null cannot be read by TLC's Json module (nil slice in the recorder?)")
             for m in num.finditer(line):
                 # skip numbers inside strings: cheap check by counting quotes before the match
                 if line[:m.start()].count(b'"') % 2 == 1:
